@@ -22,9 +22,13 @@ func init() {
 			"harness/ollamarunner/zz_verif_oracle_test.go":  "runner/ollamarunner/zz_verif_oracle_test.go",
 		},
 	}, map[string]propSpec{
+		// second stage of both: the llama.cpp runner (runner/llamarunner) over a pure-Go model of
+		// llama.cpp's KV cache (harness "llamarunner", config_llamarunner.go)
 		"C07": {level: "exploration", quickS: 45, thoroughS: 780,
+			extra:  []stageSpec{{harness: "llamarunner", quickS: 25, thoroughS: 400}},
 			probes: []string{"prefix_cache_hit", "fork", "shift_ok", "shift_fallback", "prompt_truncated", "differential_checked", "multi_seq_batch", "cancel_midstream", "image_row_forwarded", "same_batch_group_whole"}},
 		"C14": {level: "exploration", quickS: 45, thoroughS: 780,
+			extra:  []stageSpec{{harness: "llamarunner", quickS: 25, thoroughS: 400}},
 			probes: []string{"stop_hit", "stop_split_across_pieces", "utf8_split_withheld", "eos", "limit", "stop_truncated_token", "cancel_midstream"}},
 	})
 }
